@@ -55,6 +55,9 @@ func (o *WriteOpts) lob(b []byte) []byte {
 	return o.arena[st:len(o.arena)]
 }
 
+// systemWordSID: the system symbols that are ordinary words (ids fixed by the Ion 1.0 system table).
+var systemWordSID = map[string]int{"name": 4, "version": 5, "imports": 6, "symbols": 7, "max_id": 8}
+
 // LooksLikeSID mirrors the *documented* notion of "$n-shaped" text, generously: anything that
 // starts with '$' followed by an optional sign and digits only.
 func LooksLikeSID(s string) bool {
@@ -209,6 +212,17 @@ func writeValue(w ion.Writer, v *model.Value, o *WriteOpts, inStruct bool) error
 		if o.SymbolFromString && v.Sy.HasText && !LooksLikeSID(v.Sy.Text) && o.Rnd != nil && o.Rnd.Intn(3) == 0 {
 			logCall(o, "WriteSymbolFromString("+v.Sy.String()+")")
 			return wrap("WriteSymbolFromString", w.WriteSymbolFromString(v.Sy.Text))
+		}
+		// a symbol known by id only: through this entry point "$n" is the id n (DESIGN 7.3), the same
+		// thing as a token without text
+		if o.SymbolFromString && !v.Sy.HasText && v.Sy.SID >= 0 && o.Rnd != nil && o.Rnd.Intn(2) == 0 {
+			logCall(o, fmt.Sprintf("WriteSymbolFromString($%d)", v.Sy.SID))
+			return wrap("WriteSymbolFromString", w.WriteSymbolFromString(fmt.Sprintf("$%d", v.Sy.SID)))
+		}
+		// ... and the five system symbols that are ordinary words have the same id in every context
+		if sid, ok := systemWordSID[v.Sy.Text]; ok && o.SymbolFromString && v.Sy.HasText && o.Rnd != nil && o.Rnd.Intn(2) == 0 {
+			logCall(o, fmt.Sprintf("WriteSymbolFromString($%d) for %q", sid, v.Sy.Text))
+			return wrap("WriteSymbolFromString", w.WriteSymbolFromString(fmt.Sprintf("$%d", sid)))
 		}
 		logCall(o, "WriteSymbol("+v.Sy.String()+")")
 		return wrap("WriteSymbol", w.WriteSymbol(o.tokFor(1, v.Sy)))
